@@ -489,20 +489,35 @@ class DiffXReader(object):
 
         # First, determine the line endings that we're going to be working
         # with.
-        if line_endings:
-            # An explicit line ending type was specified. Validate it and
-            # get the newline characters, encoding it for the byte string.
-            try:
-                newline = get_newline_for_type(line_endings,
-                                               encoding=encoding)
-            except ValueError as e:
-                raise DiffXParseError(str(e),
-                                      linenum=self._linenum)
-        else:
-            # An explicit line ending type was not specified. Try to determine
-            # the appropriate line ending based on the first line of content.
-            line_endings, newline = guess_line_endings(content,
-                                                       encoding=encoding)
+        try:
+            if line_endings:
+                # An explicit line ending type was specified. Validate it
+                # and get the newline characters, encoding it for the byte
+                # string.
+                try:
+                    newline = get_newline_for_type(line_endings,
+                                                   encoding=encoding)
+                except ValueError as e:
+                    if isinstance(e, UnicodeError):
+                        raise
+
+                    raise DiffXParseError(str(e),
+                                          linenum=self._linenum)
+            else:
+                # An explicit line ending type was not specified. Try to
+                # determine the appropriate line ending based on the first
+                # line of content.
+                line_endings, newline = guess_line_endings(content,
+                                                           encoding=encoding)
+        except (LookupError, TypeError, UnicodeError):
+            raise DiffXParseError(
+                'Unknown or unsupported encoding "%s"' % encoding,
+                linenum=self._linenum - 1)
+
+        if not newline:
+            raise DiffXParseError(
+                'Unknown or unsupported encoding "%s"' % encoding,
+                linenum=self._linenum - 1)
 
         lines = split_lines(data=content,
                             newline=newline,
@@ -522,8 +537,14 @@ class DiffXReader(object):
         if encoding and not keep_bytes:
             # We know what this content was encoded with. We can now decode
             # it.
-            content = content.decode(encoding)
-            newline = newline.decode(encoding)
+            try:
+                content = content.decode(encoding)
+                newline = newline.decode(encoding)
+            except (LookupError, TypeError, UnicodeError) as e:
+                raise DiffXParseError(
+                    'The content could not be decoded as "%s": %s'
+                    % (encoding, e),
+                    linenum=self._linenum)
 
         # Validate that the content ends in a newline. This is to ensure that
         # the file was written according to spec.
